@@ -92,7 +92,7 @@ theorem serToks_raw (m : Method) (toks : List Tok) (h : ∀ t ∈ toks, tokOkB m
       simp [emitOpen, emitRTok, emitAttrs_plain m a ht.1.2]
     | empty t a =>
       simp only [tokOkB, Bool.and_eq_true, Bool.not_eq_true'] at ht
-      simp only [serToks, ht.2, Bool.or_false, ih', List.map_cons, List.flatMap_cons, rawOf]
+      simp only [serToks, ih', List.map_cons, List.flatMap_cons, rawOf]
       congr 1
       cases m with
       | xml => simp [emitEmpty, emitRTok, emitAttrs_plain _ a ht.1.2]
